@@ -77,7 +77,11 @@ C05(b) ==
       badJump == { k \in Own(b) : b.ins[k].op \in JumpOps /\ (b.ins[k].d < b.jbase \/ b.ins[k].d >= NJ) }
       badExpr == { k \in DOMAIN b.exprs : b.exprs[k].j < b.jbase \/ b.exprs[k].j >= NJ }
       badEntry == { j \in (b.jbase + 1)..NJ : b.jumps[j] < b.ibase \/ b.jumps[j] >= NI }
-      starts == { b.jumps[j] : j \in (b.jbase + 1)..NJ }
+      \* blocks that are entered ONLY through the jump table: the entry, conditional arms, right operands of && / ||, expression bodies
+      \* (the targets of JumpTo are join points in the middle of a run, reached by falling through as well)
+      rootEntries == { b.entry } \cup { b.ins[k].d : k \in { k \in Own(b) : b.ins[k].op \in {"JumpIfTrue", "JumpIfFalse", "And", "Or"} } }
+                     \cup { b.exprs[k].j : k \in DOMAIN b.exprs }
+      starts == { b.jumps[j + 1] : j \in { j \in rootEntries : j >= b.jbase /\ j < NJ } }
       badBlock == { t \in starts : t > b.ibase /\ t < NI /\ b.ins[t].op \notin Terminators }        \* the instruction before a block start (0-based t-1 = position t)
       badList == { k \in Own(b) : b.ins[k].op = "MakeList" /\ b.ins[k].d < 0 } IN
   (IF badData # {} THEN <<"a data operand names no existing value">> ELSE <<>>)
@@ -97,7 +101,7 @@ Fails(o) ==
   Tag("C03", C03(o))
   \o (IF Accepted(o) THEN Tag("C04", C04Tree(o)) ELSE <<>>)
   \o (IF Accepted(o) THEN LET a == C04Attr(o, o.builds[1]) IN [i \in DOMAIN a |-> [prop |-> "C04", why |-> a[i].why, d |-> a[i].d, kf |-> a[i].kf]] ELSE <<>>)
-  \o (IF Accepted(o) THEN Tag("C05", C05(o.builds[1]) \o C05(o.builds[2])) ELSE <<>>)
+  \o (IF Accepted(o) THEN LET w == C05(o.builds[1]) \o C05(o.builds[2]) IN [i \in DOMAIN w |-> [prop |-> "C05", why |-> w[i], kf |-> KF_C05(o, w[i])]] ELSE <<>>)
 Report == Fails(Obs[c]) = <<>> \/ PrintT(<<"FAIL", ToJson([c |-> c, src |-> IF Has(Obs[c], "src") THEN Obs[c].src ELSE "", fails |-> Fails(Obs[c]),
                                                           kf |-> KF_Compile(Obs[c])])>>)
 Stat == Accepted(Obs[c]) => PrintT(<<"STAT", ToJson([c |-> c, accepted |-> TRUE])>>)
